@@ -48,7 +48,9 @@ func (c *check) Rule() string {
 		"queue/project/priority/preemptibility/user/node-pool labels and topology annotations on owner vs intermediate owner vs pod template; replica counts; " +
 		"pod-grouper flags (legacy search, knative gang, defaults ConfigMap). The real PodReconciler.Reconcile (real podgrouper, DefaultPluginsHub, podgroup.Handler) " +
 		"runs on a fresh controller-runtime fake client per reconcile order (4-5 orders with multiplicities 1-3), then passes over all pods until the content is stable, " +
-		"plus one run with a foreign update of the PodGroup (and optionally a workload change) at a random point. " +
+		"plus one run with a foreign update of the PodGroup (and optionally a workload change) at a random point, runs with one mutating call rejected once, a run with the workload " +
+		"deleted and re-created under the same name, and a run in a store that also holds same-named twins of every object of the workload (and a running launcher-role pod with its " +
+		"kubeflow job-name label) in another namespace: the result for the workload's namespace must be what it was without them. " +
 		"Non-trivial: a case with >=2 sibling pods, >=2 reconcile orders compared and >=2 successful reconciles. Distinct = hash of (objects, pods, config, orders, foreign plan)."
 }
 func (c *check) Assumptions() []string {
@@ -203,6 +205,9 @@ func RunScenario(sc *Scenario, env *run.Env) run.CaseResult {
 
 	// (f) the workload is deleted and re-created under the same name while pods of the first incarnation still exist
 	cr.playRecreate(runs[0])
+
+	// (g) same-named workloads of another namespace do not influence the result
+	cr.playBystanders(runs[0])
 
 	res.Counters = cr.counters
 	res.NonTrivial = len(sc.Pods) >= 2 && len(runs) >= 2 && cr.okRecs >= 2
@@ -701,6 +706,131 @@ func (cr *caseRun) playFaults(base OrderRun) {
 				"%s (%s): mutating call #%d of order %v (%s) was rejected once with a server timeout and every pod was reconciled again until nothing changed; the final state (second value) differs from the fault-free run (first value) in %s: %s",
 				cr.sc.Kind, cr.sc.Detail, k, base.Order, *w.failed, f, details[f])
 		}
+	}
+}
+
+// ------------------------------------------------------------------------------------------ (g) bystanders
+
+const bystanderNS = "ns2"
+
+// playBystanders replays order 0 in a store that also holds, in another namespace, a twin of every namespaced object of
+// the scenario (same names, labels and annotations, other UIDs; the twin pods are Running and are never reconciled),
+// plus for every workload object a running launcher-role pod carrying the kubeflow job-name label of that name. The
+// pod-grouper's result for the original namespace is a function of the workload's own owner chain and pod template: it
+// has to be what it was without the twins.
+func (cr *caseRun) playBystanders(base OrderRun) {
+	sc := cr.sc
+	if base.Final == nil || !base.Converged || len(base.Errors) > 0 {
+		return
+	}
+	twin := func(o Obj) Obj {
+		b, err := json.Marshal(o)
+		if err != nil {
+			return nil
+		}
+		var c Obj
+		if json.Unmarshal(b, &c) != nil {
+			return nil
+		}
+		md, ok := c["metadata"].(map[string]any)
+		if !ok || md["namespace"] != ns {
+			return nil
+		}
+		md["namespace"] = bystanderNS
+		if u, ok := md["uid"].(string); ok {
+			md["uid"] = u + "-twin"
+		}
+		delete(md, "resourceVersion")
+		if refs, ok := md["ownerReferences"].([]any); ok {
+			for _, r := range refs {
+				if rm, ok := r.(map[string]any); ok {
+					if u, ok := rm["uid"].(string); ok {
+						rm["uid"] = u + "-twin"
+					}
+				}
+			}
+		}
+		if c["kind"] == "Pod" {
+			if ann, ok := md["annotations"].(map[string]any); ok {
+				delete(ann, "pod-group-name")
+			}
+			c["status"] = map[string]any{"phase": "Running"}
+		}
+		return c
+	}
+	sc2 := *sc
+	sc2.Objects = append([]Obj{}, sc.Objects...)
+	n := 0
+	for _, o := range append(append([]Obj{}, sc.Objects...), sc.Pods...) {
+		if c := twin(o); c != nil {
+			sc2.Objects = append(sc2.Objects, c)
+			n++
+		}
+		if o["kind"] != "Pod" && o["kind"] != "PodGroup" && o["kind"] != "ConfigMap" {
+			if md, ok := o["metadata"].(Obj); ok && md["namespace"] == ns {
+				name := nameOf(o)
+				pn := strings.ToLower(fmt.Sprint(o["kind"])) + "-" + name + "-launcher-twin"
+				sc2.Objects = append(sc2.Objects, Obj{"apiVersion": "v1", "kind": "Pod",
+					"metadata": Obj{"name": pn, "namespace": bystanderNS, "uid": "uid-" + pn,
+						"labels": Obj{"training.kubeflow.org/job-name": name, "training.kubeflow.org/job-role": "launcher", "training.kubeflow.org/replica-type": "launcher",
+							"app": name, "job-name": name}},
+					"spec":   Obj{"schedulerName": schedulerName, "containers": []any{Obj{"name": "main", "image": "img"}}},
+					"status": Obj{"phase": "Running"}})
+				n++
+			}
+		}
+	}
+	if n == 0 {
+		return
+	}
+	w, err := newWorld(&sc2)
+	if err != nil {
+		cr.inc("bystander_runs_world_error", 1)
+		return
+	}
+	errs := map[string]int{}
+	for _, i := range base.Order {
+		cr.doReconcile(w, i, errs)
+	}
+	var st *State
+	cur := ""
+	converged := false
+	for pass := 1; pass <= maxConvergePasses+1; pass++ {
+		for i := range sc.Pods {
+			cr.doReconcile(w, i, nil)
+		}
+		if st, err = w.state(); err != nil {
+			return
+		}
+		if k := st.key(); k == cur {
+			converged = true
+			break
+		} else {
+			cur = k
+		}
+	}
+	cr.inc("bystander_runs", 1)
+	cr.inc("bystander_objects", n)
+	// twins of PodGroups the scenario holds itself (legacy PodGroups) are bystanders too, not results
+	own := st.PodGroups[:0:0]
+	for _, pg := range st.PodGroups {
+		if pg.Namespace != bystanderNS {
+			own = append(own, pg)
+		}
+	}
+	st.PodGroups = own
+	if !converged {
+		cr.viol("bystander-independence", "no-convergence-with-bystanders:"+sc.Kind, "%s (%s): with twins of the workload in namespace %s the content still changes after %d passes", sc.Kind, sc.Detail, bystanderNS, maxConvergePasses+1)
+		return
+	}
+	if !sameErrs(base.Errors, errs) {
+		cr.viol("bystander-independence", "bystander-dependence:reconcile-errors:"+sc.Kind, "%s (%s): reconcile errors %v with twins of the workload in namespace %s, %v without", sc.Kind, sc.Detail, keys(errs), bystanderNS, keys(base.Errors))
+	}
+	fields, details := diffStates(base.Final, st)
+	for _, f := range fields {
+		cr.viol("bystander-independence", "bystander-dependence:"+f+":"+sc.Kind,
+			"%s (%s): order %v was replayed in a store that also holds same-named twins of the workload and a running launcher-role pod in namespace %s; the final state (second value) differs from the run without them (first value) in %s: %s",
+			sc.Kind, sc.Detail, base.Order, bystanderNS, f, details[f])
 	}
 }
 
